@@ -463,6 +463,8 @@ class Check:
                 return False
         self.violations += 1
         n = self.violations
+        with open(os.path.join(self.out, "violations.txt"), "a") as fh:
+            fh.write(sig.replace("\n", " ") + "\n")
         if n <= 25:
             path = os.path.join(self.replays, "%d.json" % n)
             with open(path, "w") as fh:
